@@ -409,6 +409,16 @@ class CHECK(Check):
                         num = None
                     if num is None or num != float(v):
                         res.violation(f'{target}|{pos_sig}|number-denotes-other-value|{type(v).__name__}', f'value {v!r} renders as {text!r}')
+                    elif target == 'to_string':
+                        # the library's own lexers have no exponent notation: read the number back with them
+                        try:
+                            from mindsdb_sql import parse_sql
+                            node = parse_sql('select ' + raw, 'mindsdb').targets[0]
+                            back = node.value if isinstance(node, A.Constant) else None
+                        except Exception:
+                            back = None
+                        if back != v or type(back) is not type(v):
+                            res.violation(f'{target}|{pos_sig}|library-lexer-reads-back-other-value|{type(v).__name__}', f'value {v!r} prints as {raw!r}, which parse_sql reads back as {back!r}')
             else:
                 # negative numbers, booleans, NULL: structure may legitimately differ by a sign / keyword; check by value word
                 flat = ' '.join(raw for k, raw, _ in tv)
